@@ -486,7 +486,7 @@ Definition ex_i : sched_in :=
   {| si_epoch := 0; si_cur := 0; si_notcur := true; si_indices := [5; 6; 7];
      si_duties := Some [(5, [9]); (6, [17; 3]); (7, [30])]; si_accts := Some [5; 7] |}.
 Definition ex_f : fire_in :=
-  {| f_slot := 6; f_root := Some 12; f_sel_err := false; f_sel_zero := [];
+  {| f_slot := 6; f_root := Some 12; f_slot_root := None; f_sel_slow := true; f_sel_err := false; f_sel_zero := [];
      f_hash8 := [(5, 1, 0); (7, 3, 5)]; f_root_err := false; f_root_zero := [];
      f_submit_err := false; f_contrib_err := []; f_cp_err := false |}.
 
@@ -530,7 +530,7 @@ Definition ex_h2 : sched_in :=
   {| si_epoch := 4; si_cur := 8; si_notcur := false; si_indices := [5; 7];
      si_duties := Some [(7, [2])]; si_accts := Some [5; 7] |}.
 Definition ex_hf : fire_in :=
-  {| f_slot := 13; f_root := Some 12; f_sel_err := false; f_sel_zero := [];
+  {| f_slot := 13; f_root := Some 12; f_slot_root := None; f_sel_slow := false; f_sel_err := false; f_sel_zero := [];
      f_hash8 := []; f_root_err := false; f_root_zero := [];
      f_submit_err := false; f_contrib_err := []; f_cp_err := false |}.
 
